@@ -54,7 +54,7 @@ func (l *UnwrapAggPlanner) finalize(ctx *shared.PlannerContext, stream *aggOpStr
 	switch l.Function {
 	case "rate":
 		for i := 0; i < len(stream.values); i += 2 {
-			stream.values[i] /= float64(l.Duration.Milliseconds()) / 1000
+			stream.values[i] /= float64(l.Duration.Nanoseconds()) / 1e9
 		}
 	case "avg_over_time":
 		for i := 0; i < len(stream.values); i += 2 {
